@@ -82,7 +82,7 @@ def worker(cfg, tier):
         inv.append(seq[0] >= 0)  # real entries only: the -1e9 sentinel knot relies on float absorption, outside the real model
         K = [ts_sent[i] + d for i in range(n)]
     obs = []
-    tmo = 120 if tier == "quick" else 600
+    tmo = 400 if tier == "quick" else 1200
     od = out.data.y.flat()
     # query times written independently: x_j = ts_start - (K[idx_max-1] - K[idx_min+j]) with idx_max = n - m
     goals_pl, goals_between, goals_newest = [], [], []
@@ -231,7 +231,7 @@ def run(rep):
     rep.encode(TrainableDist.apply_delay)
     cfgs = configs(rep.tier)
     rep.configs = cfgs
-    rep.bounds = dict(window=[1, 2], ext=sorted({2, 3}), payload="scalar f32", per_query_cap_s=120 if rep.tier == "quick" else 600)
+    rep.bounds = dict(window=[1, 2], ext=sorted({2, 3}), payload="scalar f32", per_query_cap_s=400 if rep.tier == "quick" else 1200)
     rep.assumptions = ["floats as reals (float32 rounding of slopes outside)", "extended-window invariant of C10 plus send times at least 1us apart and sender regularity (<= ext unarrived entries)",
                        "'linear': at most one not-yet-filled entry (several default entries share the knot t=0); 'linear_real_only': windows without default entries "
                        "(its -1e9 sentinel relies on float absorption, which the real model cannot express) -- both restrictions are stated bounds",
